@@ -2,6 +2,7 @@ package main
 
 import (
 	"fmt"
+	"go/token"
 	"go/types"
 	"sort"
 	"strings"
@@ -11,8 +12,8 @@ import (
 
 func init() {
 	register(&propDef{
-		ID: "C04", Level: "other", Run: runC04,
-		Explanation: "Decides the refusal-without-effect half of the property for every path of every action and table operation (E3: all state effects come after the passed CheckAction / current-event guard, every refusing path returns a definitely non-nil sentinel error, every sentinel return is effect-free), that offered action names agree with the guards across packages (E2), that offers are attached to the current seat only and cleared from the previous one (E6/E8), that the game-level action wrappers dispatch to the current player, and that NextPlayer is the clockwise successor function. Does NOT decide which seat the walk starts from before the flop or that the walk visits seats in order for every history.",
+		ID: "C04", Level: "other", Run: withShared(runC04, share{"C05", runC05, ruleIs("no-bet-when-one-movable")}),
+		Explanation: "Decides the refusal-without-effect half of the property for every path of every action and table operation (E3: all state effects come after the passed CheckAction / current-event guard, every refusing path returns a definitely non-nil sentinel error, every sentinel return is effect-free), that offered action names agree with the guards across packages (E2), that offers are attached to the current seat only and cleared from the previous one (E6/E8), that the game-level action wrappers dispatch to the current player, and that NextPlayer is the clockwise successor function. Where a round opens is decided in shape: later streets park the current seat on the dealer, before the flop the current seat walks the seat successor from the dealer to the big blind, and the first offer goes to the successor of the parked seat. Along every event chain that rests outside the action wait all offers were cleared after the last grant. Does NOT decide which seat the walk starts from before the flop or that the walk visits seats in order for every history.",
 		Trusted:     commonTrusted,
 		Assumptions: []string{"single game per process: every *GameState reached from a game/player is the same object", "player.state aliases GameState.Players[idx] (established by addPlayer)", "interfaces Game/Player have one implementation each (asserted)"},
 		NotCovered:  "the clockwise seat walk and first-to-act seat as values over histories",
@@ -280,6 +281,7 @@ func runC04(c *Ctx) {
 		}
 	}
 
+	runC04HelperGuards(c, ea)
 	runC04CurrentSeat(c, ea)
 	runC04SeatSuccessor(c, ea)
 	runC04OpeningSeat(c, ea, buildEventGraph(c, ea))
@@ -788,4 +790,75 @@ func runC04SeatSuccessor(c *Ctx, ea *engineAnchors) {
 		why = append(why, fmt.Sprintf("expected a wrapping and a non-wrapping case, found %d/%d", nWrap, nNext))
 	}
 	c.check(ok, "seat-successor", "NextPlayer", p.FnPos(fn), "returns the seat after Status.CurrentPlayer, wrapping to 0 at the end of the player list", "NextPlayer is not the clockwise successor", why...)
+}
+
+// runC04HelperGuards: an action's effect may live in an unexported helper (call(), allin()), but
+// then everything that reaches the helper must hold the offer for THAT action: a method guarded
+// by "raise" that performs the helper's "call" carries out an action the player was not offered.
+// The chip mover is exempt (its all-in branch is a consequence of the amount, not an offered
+// action of its own).
+func runC04HelperGuards(c *Ctx, ea *engineAnchors) {
+	p := c.P
+	ix := p.Index()
+	offered, _, _ := c.offeredActions(ea)
+	mover := c.chipMover(ea)
+	guards := map[*ssa.Function]map[string]bool{}
+	for _, am := range c.actionMethods(ea) {
+		if guards[am.Fn] == nil {
+			guards[am.Fn] = map[string]bool{}
+		}
+		guards[am.Fn][am.Const] = true
+	}
+	n := 0
+	for _, fn := range p.MethodsOf("pokerface", ea.playerImpl) {
+		if fn == mover || fn.Blocks == nil {
+			continue
+		}
+		// action names this function records as done
+		did := map[string]bool{}
+		for _, b := range fn.Blocks {
+			for _, in := range b.Instrs {
+				if st, ok := in.(*ssa.Store); ok && accessKey(st.Addr) == "pokerface.PlayerState.DidAction" {
+					if k, ok := constString(st.Val); ok && offered[k] {
+						did[k] = true
+					}
+				}
+			}
+		}
+		for _, k := range sortedSet(did) {
+			if guards[fn][k] {
+				continue // guarded here: C04/action-guard decides the rest
+			}
+			n++
+			var bad []string
+			var up func(f *ssa.Function, depth int) bool
+			up = func(f *ssa.Function, depth int) bool {
+				callers := ix.Callers(f)
+				if len(callers) == 0 || depth > 3 {
+					return false
+				}
+				for _, cl := range callers {
+					if guards[cl][k] {
+						continue
+					}
+					if len(guards[cl]) > 0 || token.IsExported(cl.Name()) || !up(cl, depth+1) {
+						bad = append(bad, fnKey(cl)+" reaches "+fn.Name()+" (which carries out \""+k+"\") without holding the offer for \""+k+"\"")
+						return false
+					}
+				}
+				return true
+			}
+			ok := up(fn, 0)
+			c.check(ok && len(bad) == 0, "action-guard", fnKey(fn)+"#helper:"+k, p.FnPos(fn), "reached only from methods that hold the offer for the same action", "an action is carried out under the offer for another one", uniq(bad, 2)...)
+		}
+	}
+	c.Notes = append(c.Notes, fmt.Sprintf("action-guard: %d unguarded helper(s) carrying out an offered action", n))
+}
+
+// bodyHelpers: an action method may keep its guard and move its body into an unexported helper of
+// the same type; the helper is then analysed as part of the method. The chip mover stays a call.
+func bodyHelpers(owner, mover *ssa.Function) func(*ssa.Function) bool {
+	return func(f *ssa.Function) bool {
+		return privateHelper(owner, f) && f != mover && len(findLoops(f)) == 0
+	}
 }
